@@ -172,11 +172,150 @@ def runRes (f : List String) (impl : String) : Ans :=
                 (if ncerts != 0 then ["has-certs"] else []) ++ ["nt"] }
   | _, _, _, _, _, _, _, _ => { model := "bad-op", verdict := "skip" }
 
+/-! ### round 2 streams: `rv` (stored client certificates re-verified on resumption), `sc` (session-ID cache) -/
+
+def storedKind (k : String) : Option (String × Bool × Bool × Bool) :=   -- issuer, parses, EKU admits client auth, EKU lists it
+  if k == "A" then some ("A", true, true, true)
+  else if k == "B" then some ("B", true, true, true)
+  else if k == "noeku" then some ("A", true, true, false)
+  else if k == "srvonly" then some ("A", true, false, false)
+  else if k == "self" then some ("self", true, true, true)
+  else if k == "garbage" then some ("-", false, false, false)
+  else none
+
+def baseCfg (clientAuth : Nat) (ecdsa : Bool) (maxV : Nat) : Config :=
+  { minVersionRaw := 0, maxVersionRaw := maxV, cipherSuitesRaw := none, priority := [], preferServer := false,
+    ssl3PoodleProofed := false, ticketsDisabled := false, cacheEnabled := true, nextProtos := [],
+    clientAuth := clientAuth, curvePrefsRaw := [], hasCert := true, certEcdsa := ecdsa }
+
+def runRv (f : List String) (impl : String) : Ans :=
+  match f with
+  | [pol, ruleCA, cfgPool, rulePool, stored, via] =>
+    match pol.toNat? with
+    | some cfgPol =>
+      let rca := ruleCA == "1"
+      let rule : Option Rule := if rca then some { grade := "C", clientAuth := true, chacha20 := false, nextProtos := [] } else none
+      let cfg := baseCfg cfgPol false 0
+      let policy := clientAuthOf cfg rule
+      let po (s : String) : Option String := if s == "-" then none else some s
+      let pool : Option String := if rca then (match po rulePool with | some p => some p | none => po cfgPool) else po cfgPool
+      let sess : Session := { vers := 0x0303, suite := 0x002f, hasCerts := stored != "none" }
+      let viaTk := via == "tk"
+      let h : Hello := { vers := 0x0303, suites := [0x002f], compression := [0], curves := [], points := [], alpn := [], npn := false,
+                         ticketSupported := viaTk, ticketPresent := viaTk, sessionIdPresent := !viaTk }
+      let lk : Lookups := if viaTk then { ticket := some sess, cache := none } else { ticket := none, cache := some sess }
+      let sc : Option StoredCert := (storedKind stored).map fun k =>
+        { parses := k.2.1, revoked := false, chainOk := k.2.1 && pool == some k.1 && k.2.2.1, ekuListed := k.2.2.2, keyOk := true }
+      let m :=
+        match readClientHello cfg rule h lk with
+        | .error a => "alert=" ++ toString (alertCode a)
+        | .ok p =>
+          if !p.resume then "r=0 cert=-"
+          else match resumeCertStep policy sc with
+            | .error a => "r=1 cert=alert=" ++ toString a
+            | .ok v => "r=1 cert=ok v=" ++ (if v then "1" else "0") ++ " n=" ++ (if sc.isSome then "1" else "0")
+      -- spec on the implementation's answer: a resumption that gets past the certificates met the CURRENT policy
+      let verdict :=
+        if impl.startsWith "r=1 cert=ok" then
+          if (policy == requireAnyClientCert || policy == requireAndVerifyClientCert) && stored == "none" then "FAIL:client-cert-skipped"
+          else if policy == noClientCert && stored != "none" then "FAIL:client-cert-leftover"
+          else if policy ≥ verifyClientCertIfGiven && stored != "none" &&
+              !(match storedKind stored with | some k => k.2.1 && pool == some k.1 && k.2.2.2 | none => false) then
+            "FAIL:stale-client-cert-accepted"
+          else "ok"
+        else "ok"
+      { model := m, verdict := verdict,
+        tags := ["rv", "rv-pol" ++ toString policy, if m.startsWith "r=1 cert=ok" then "rv-resumed" else if m.startsWith "r=1" then "rv-cert-refused" else "rv-full", "nt"] }
+    | none => { model := "bad-op", verdict := "skip" }
+  | _ => { model := "bad-op", verdict := "skip" }
+
+structure ScSess where
+  ok : Bool
+  srv : Nat
+  vers : Nat
+  suite : Nat
+
+structure ScState where
+  now : Nat := 0
+  cache : List CacheEntry := []
+  sessions : List ScSess := []
+  out : List String := []
+  bad : Option String := none      -- first spec violation seen on the implementation's items
+
+def scStep (ttl : Nat) (prefixes : List String) (maxB : Nat) (st : ScState) (item implItem : String) : ScState :=
+  let srvOf (c : Char) : Nat := if c == 'B' then 1 else 0
+  let cs := item.toList
+  match cs with
+  | 'F' :: s :: [] =>
+    let srv := srvOf s
+    -- the negotiated parameters of a real handshake are taken from the implementation's answer
+    match implItem.splitOn ":" with
+    | ["f", v, su, _] =>
+      match parseHex v, parseHex su with
+      | some v, some su =>
+        let n := st.sessions.length
+        { st with sessions := st.sessions ++ [{ ok := true, srv := srv, vers := v, suite := su }],
+                  cache := cachePut st.cache (prefixes.getD srv "") ("id" ++ toString n) [] st.now ttl,
+                  out := st.out ++ [implItem] }
+      | _, _ => { st with sessions := st.sessions ++ [{ ok := false, srv := srv, vers := 0, suite := 0 }], out := st.out ++ [implItem] }
+    | _ => { st with sessions := st.sessions ++ [{ ok := false, srv := srv, vers := 0, suite := 0 }], out := st.out ++ [implItem] }
+  | 'R' :: s :: rest =>
+    let srv := srvOf s
+    match (String.ofList rest).toNat? with
+    | some n =>
+      let sess := st.sessions[n]?
+      let alive : Bool := match sess with
+        | some se => se.ok && (cacheGet st.cache (prefixes.getD srv "") ("id" ++ toString n) st.now).isSome
+        | none => false
+      let lk : Lookups := match sess with
+        | some se => if alive then { ticket := none, cache := some { vers := se.vers, suite := se.suite, hasCerts := false } } else { ticket := none, cache := none }
+        | none => { ticket := none, cache := none }
+      let cfg := baseCfg 0 true (if srv == 1 then maxB else 0)
+      let h : Hello := { vers := 0x0303, suites := [0xc02b, 0xc009], compression := [0], curves := [23], points := [0], alpn := [],
+                         npn := false, ticketSupported := false, ticketPresent := false, sessionIdPresent := true }
+      let o := match readClientHello cfg none h lk with
+        | .error a => "alert=" ++ toString (alertCode a)
+        | .ok p => if p.resume then "r=1:ms=1" else "r=0:ms=-"
+      let bad := if st.bad.isSome then st.bad
+        else if implItem.startsWith "r=1" && !alive then some "cache-resumed-without-live-entry"
+        else if implItem.startsWith "r=1" && implItem != "r=1:ms=1" then some "cache-master-changed"
+        else none
+      { st with out := st.out ++ [o], bad := bad }
+    | none => { st with out := st.out ++ ["bad-item"] }
+  | 'T' :: rest =>
+    { st with now := st.now + ((String.ofList rest).toNat?.getD 0), out := st.out ++ ["."] }
+  | 'X' :: rest =>
+    match (String.ofList rest).toNat? with
+    | some n =>
+      let c := prefixes.foldl (fun c p => cacheDel c (cacheKey p ("id" ++ toString n))) st.cache
+      { st with cache := c, out := st.out ++ ["."] }
+    | none => { st with out := st.out ++ ["bad-item"] }
+  | _ => { st with out := st.out ++ ["bad-item"] }
+
+def runSc (f : List String) (impl : String) : Ans :=
+  match f with
+  | [ttl, pa, pb, maxB, script] =>
+    match ttl.toNat?, parseHex maxB with
+    | some ttl, some maxB =>
+      let items := script.splitOn ","
+      let implItems := impl.splitOn ","
+      let st := (items.zip (implItems ++ List.replicate items.length "")).foldl
+        (fun st p => scStep ttl [pa, pb] maxB st p.1 p.2) ({} : ScState)
+      let resumed := st.out.any (· == "r=1:ms=1")
+      { model := ",".intercalate st.out,
+        verdict := match st.bad with | some b => "FAIL:" ++ b | none => "ok",
+        tags := ["sc"] ++ (if resumed then ["sc-resumed"] else []) ++ (if pa != pb then ["sc-prefix-differs"] else []) ++
+                (if st.sessions.isEmpty then [] else ["nt"]) }
+    | _, _ => { model := "bad-op", verdict := "skip" }
+  | _ => { model := "bad-op", verdict := "skip" }
+
 def run (op impl : String) : Ans :=
   match op.splitOn " " with
   | ["um", hx] => runUm hx impl
   | "tk" :: f => runTk f impl
   | "res" :: f => runRes f impl
+  | "rv" :: f => runRv f impl
+  | "sc" :: f => runSc f impl
   | _ => { model := "bad-op", verdict := "skip" }
 
 end BfeVerif.C44
